@@ -68,6 +68,10 @@ Proof.
   apply (G rows []).
 Qed.
 
+Lemma grouping_facts rows :
+  (rconserves rows -> rconserves (group_rows rows)) /\ (length (group_rows rows) <= length rows)%nat.
+Proof. split; [apply group_rows_conserves|apply group_rows_length]. Qed.
+
 (* The read path as the service runs it: the profiles stored inside the time window of the statement, each projected on
    the selected sample type (or lacking it), ARRAY JOINed, grouped by (parent, function, node) with wrapping sums and
    returned in ANY order (ORDER BY parent only; groupArray keeps no promise), folded by MergeTrie: the flame graph tree
